@@ -1193,39 +1193,42 @@ func (r *Run) checkChunkReducer(fn *ssa.Function, call *ssa.Call, mapF, redF *ss
 		r.Bad(rule, name, "chunk index", site, "chunk closure does not take the chunk index")
 		return
 	}
-	idx := mapF.Params[0]
-	// the closure may just delegate to a method/function that receives the chunk index
-	if body, bidx := chunkBody(r, mapF, idx); body != nil {
-		mapF, idx = body, bidx
-	}
+	// the chunk body: the closure itself and the module functions it hands its chunk index to
+	// (the whole body delegated to a method, or only the cutting of the inputs delegated to a
+	// helper) — each judged with the parameter that stands for the chunk index there
+	parts := chunkParts(r, mapF, mapF.Params[0])
 	// Index field store
 	okIndex := false
-	for _, ins := range allInstrs(mapF) {
-		st, ok := ins.(*ssa.Store)
-		if !ok {
-			continue
-		}
-		fa, ok := st.Addr.(*ssa.FieldAddr)
-		if ok && fieldOf(fa) != nil && fieldOf(fa).Name() == "Index" {
-			okIndex = unwrap(st.Val) == ssa.Value(idx)
-			if !okIndex {
-				r.Bad(rule, fnName(mapF), "chunkResponse.Index", r.P.pos(st.Pos()), "the chunk index carried to the reducer is not the closure's own chunk number")
-				return
+	for _, part := range parts {
+		for _, ins := range allInstrs(part.fn) {
+			st, ok := ins.(*ssa.Store)
+			if !ok {
+				continue
+			}
+			fa, ok := st.Addr.(*ssa.FieldAddr)
+			if ok && fieldOf(fa) != nil && fieldOf(fa).Name() == "Index" {
+				okIndex = unwrap(st.Val) == ssa.Value(part.idx)
+				if !okIndex {
+					r.Bad(rule, fnName(part.fn), "chunkResponse.Index", r.P.pos(st.Pos()), "the chunk index carried to the reducer is not the closure's own chunk number")
+					return
+				}
 			}
 		}
 	}
-	// every Slice of the inputs in mapF has a low bound that depends on idx and on nothing else loop-like
+	// every Slice of the inputs in the chunk body has a low bound that depends on idx and on nothing else loop-like
 	okSlice := true
 	nSlice := 0
-	for _, ins := range allInstrs(mapF) {
-		sl, ok := ins.(*ssa.Slice)
-		if !ok {
-			continue
-		}
-		nSlice++
-		if sl.Low == nil || !lowIsIdxTimesBatch(sl.Low, idx) {
-			okSlice = false
-			r.Bad(rule, fnName(mapF), "input slice bounds", r.P.pos(sl.Pos()), "the chunk of inputs is not cut at <chunk index> * maxBatchSize with the same chunk index that is carried to the reducer: results would be spliced at the wrong offset")
+	for _, part := range parts {
+		for _, ins := range allInstrs(part.fn) {
+			sl, ok := ins.(*ssa.Slice)
+			if !ok {
+				continue
+			}
+			nSlice++
+			if sl.Low == nil || !lowIsIdxTimesBatch(sl.Low, part.idx) {
+				okSlice = false
+				r.Bad(rule, fnName(part.fn), "input slice bounds", r.P.pos(sl.Pos()), "the chunk of inputs is not cut at <chunk index> * maxBatchSize with the same chunk index that is carried to the reducer: results would be spliced at the wrong offset")
+			}
 		}
 	}
 	// reducer: uses value.Index for placement, never len(acc)-based append of whole acc order
@@ -1778,6 +1781,51 @@ func reducerBody(r *Run, redF *ssa.Function) (*ssa.Function, ssa.Value, ssa.Valu
 		}
 	}
 	return nil, nil, nil
+}
+
+// chunkPart is a function of the chunk body together with the parameter that holds the chunk
+// index in it.
+type chunkPart struct {
+	fn  *ssa.Function
+	idx *ssa.Parameter
+}
+
+// chunkParts: the map closure and, transitively (two levels), every module function a part
+// hands its chunk index to unchanged.
+func chunkParts(r *Run, mapF *ssa.Function, idx *ssa.Parameter) []chunkPart {
+	parts := []chunkPart{{mapF, idx}}
+	depth := map[*ssa.Function]int{mapF: 0}
+	for i := 0; i < len(parts); i++ {
+		p := parts[i]
+		if depth[p.fn] >= 2 {
+			continue
+		}
+		for _, ins := range allInstrs(p.fn) {
+			c, ok := ins.(*ssa.Call)
+			if !ok {
+				continue
+			}
+			sc := c.Call.StaticCallee()
+			if sc == nil {
+				continue
+			}
+			f := r.P.declared(sc)
+			if f == nil || !inModule(f) || f.Blocks == nil {
+				continue
+			}
+			if _, seen := depth[f]; seen {
+				continue
+			}
+			for k, a := range c.Call.Args {
+				if unwrap(a) == ssa.Value(p.idx) && k < len(f.Params) {
+					depth[f] = depth[p.fn] + 1
+					parts = append(parts, chunkPart{f, f.Params[k]})
+					break
+				}
+			}
+		}
+	}
+	return parts
 }
 
 func chunkBody(r *Run, mapF *ssa.Function, idx *ssa.Parameter) (*ssa.Function, *ssa.Parameter) {
